@@ -16,8 +16,9 @@ LEVEL_NOTE = ("Trusted: Python int/float conversion as reference (IEEE nearest);
 TECHNIQUE = "exhaustive accept/reject table + boundary-value differential testing of converted values"
 RULE = ("pairs (actual, expected) in {nat,int,float}^2; contexts: x: E = a / g(a) with g(x: E) / "
         "return a from -> E / b + a with b: E returned as E; 40 values per accepted pair per case from "
-        "a boundary set plus random. distinct = (pair, context, value class)")
-FLOORS = {"pairs_probed": 36, "values_checked": 100}
+        "a boundary set plus random; plus all six comparison operators between operands of two "
+        "different numeric types at equal and neighbouring values. distinct = (pair, context, value class)")
+FLOORS = {"pairs_probed": 36, "values_checked": 100, "comparisons_checked": 100}
 ORDER = {"nat": 0, "int": 1, "float": 2}
 TYS = ["nat", "int", "float"]
 CTXS = ["annassign", "argument", "return", "operand"]
@@ -96,7 +97,26 @@ def run_case(ctx, rng, idx, params, tier):
                 continue  # not representable in the target: not value-checked
             calls.append(f'    result("r", {name}({v}))')
             plan_.append((name, ck, act, exp, v))
-    main = "".join(text) + "@guppy\ndef main() -> None:\n" + "\n".join(calls) + "\n"
+    # comparison operands: the narrower operand (either side) is widened to the other's type; the
+    # outcome must be Python's for equal and neighbouring values (nat vs negative int excluded:
+    # a nat >= 2^63 compared with an int is the known C04 finding and is not generated)
+    CMPS = {"eq": "==", "ne": "!=", "lt": "<", "le": "<=", "gt": ">", "ge": ">="}
+    cmp_defs = []
+    cmp_plan = []
+    for t1 in TYS:
+        for t2 in TYS:
+            if t1 == t2:
+                continue
+            for cn, op in CMPS.items():
+                cmp_defs.append(f"@guppy\ndef c_{cn}_{t1}_{t2}(a: {t1}, b: {t2}) -> bool:\n    return a {op} b\n\n")
+            for _ in range(3):
+                v = rng.choice([0, 1, 2, 7, 12, 255, 2**31, 2**40 + 3, 2**52 + 1])
+                w = v + rng.choice([0, 0, 0, 1, -1]) if v else v + rng.choice([0, 0, 1])
+                cn = rng.choice(list(CMPS))
+                lit = lambda t, x: (repr(float(x)) if t == "float" else str(x))
+                calls.append(f'    result("c", c_{cn}_{t1}_{t2}({lit(t1, v)}, {lit(t2, w)}))')
+                cmp_plan.append((cn, t1, t2, v, w))
+    main = "".join(text) + "".join(cmp_defs) + "@guppy\ndef main() -> None:\n" + "\n".join(calls) + "\n"
     ld2 = ctx.load(main, "coerce_run")
     try:
         pkg = ld2.main.compile()
@@ -125,7 +145,18 @@ def run_case(ctx, rng, idx, params, tier):
                 viols.append({"mech": f"C16:value-changed:{ck}:{act}->{exp}:{vc}",
                               "witness": {"context": ck, "actual": act, "expected_type": exp, "value": v,
                                           "expected": e, "observed": got}})
-        if out.panic or len(stream) != len(plan_):
+        import operator as _op
+
+        pyop = {"eq": _op.eq, "ne": _op.ne, "lt": _op.lt, "le": _op.le, "gt": _op.gt, "ge": _op.ge}
+        for (cn, t1, t2, v, w), (_, got) in zip(cmp_plan, stream[len(plan_):]):
+            counters["comparisons_checked"] = counters.get("comparisons_checked", 0) + 1
+            cells.add(f"compare:{cn}:{t1},{t2}")
+            if bool(got) != pyop[cn](v, w):
+                rel = "equal" if v == w else "neighbour"
+                viols.append({"mech": f"C16:comparison-after-widening:{cn}:{t1},{t2}:{rel}",
+                              "witness": {"op": cn, "left": [t1, v], "right": [t2, w],
+                                          "expected": pyop[cn](v, w), "observed": got}})
+        if out.panic or len(stream) != len(plan_) + len(cmp_plan):
             viols.append({"mech": "C16:panic-or-missing-results", "witness": {"panic": out.panic}})
     seen = set()
     uniq = [v for v in viols if not (v["mech"] in seen or seen.add(v["mech"]))]
